@@ -12,6 +12,7 @@ FILES = {
     "groupsum": "src/torchlogix/layers/groupsum.py",
     "functional": "src/torchlogix/functional.py",
     "compiled": "src/torchlogix/compiled_model.py",
+    "thermo": "src/torchlogix/layers/thresholding.py",
 }
 
 # (name, file, class or None, function, snippet that must occur in the unparsed function)
@@ -50,6 +51,12 @@ GUARDS = [
      "if isinstance(layer, base) and type(layer) is not base:\n                    raise ValueError"),
     ("compiled_patched_rule", "compiled", "CompiledLogicNet", "_refuse_patched",
      "if patched or module._forward_hooks or module._forward_pre_hooks:\n        raise ValueError"),
+    ("compiled_container_plain", "compiled", "CompiledLogicNet", "_parse_model",
+     "if type(self.model).forward is not torch.nn.Sequential.forward or type(self.model).__call__ is not torch.nn.Module.__call__ or "
+     "type(self.model)._call_impl is not torch.nn.Module._call_impl:\n        raise ValueError", "top-if"),
+    ("compiled_dense_pairs_match_gates", "compiled", "CompiledLogicNet", "_parse_model",
+     "if any((len(idx) != layer.weight.shape[0] for idx in layer.indices)):\n                    raise ValueError"),
+    ("thermometer_layout", "thermo", "LearnableThermometerThresholding", "forward", "if x.ndim != 4 or x.shape[1] != 1:\n        raise ValueError", "top-if"),
     ("compiled_global_hooks", "compiled", "CompiledLogicNet", "_refuse_patched",
      "if hooks._global_forward_hooks or hooks._global_forward_pre_hooks:\n        raise ValueError"),
     ("compiled_groupsum_k_now", "compiled", "CompiledLogicNet", "_parse_model", "if not layer.k > 0:\n                    raise ValueError"),
